@@ -728,6 +728,8 @@ def round14_entries():
     out.append(("funcattr-align.function", 'define void @f() align=8 {\n\tret void\n}\n\ndeclare void @g() nounwind align=16 align 4\n', ['define void @f() align=8 {', 'declare void @g() nounwind align=16 align 4']))
     out.append(("funcattr-align.call-sites", 'declare void @g()\n\ndefine void @f() personality i8* null {\n\tcall void @g() align=8\n\tinvoke void @g() align=8 nounwind\n\t\tto label %a unwind label %b\n\na:\n\tcallbr void asm "", ""() align=2\n\t\tto label %c []\n\nb:\n\t%l = landingpad i8\n\t\tcleanup\n\tret void\n\nc:\n\tret void\n}\n',
                 ['call void @g() align=8', 'invoke void @g() align=8 nounwind', 'callbr void asm "", ""() align=2']))
+    # `no_cfi` in front of a global VARIABLE (LLVM accepts any global value there)
+    out.append(("no_cfi.global-variable", '@g = global i32 0\n@p = global i32* no_cfi @g\n@q = global i32* getelementptr (i32, i32* no_cfi @g, i64 1)\n', ['@p = global i32* no_cfi @g', 'getelementptr (i32, i32* no_cfi @g, i64 1)']))
     # the EMPTY comdat name (`$""`, accepted by LLVM too): printed quoted — `$` alone is not a token
     out.append(("comdat.empty-name", '$"" = comdat any\n\n@x = global i32 0, comdat($"")\n', ['$"" = comdat any', '@x = global i32 0, comdat($"")']))
     # numbered type definitions among names that sort below the digits, between them and above them
